@@ -198,8 +198,8 @@ def run_text_probes(ck, probes):
     listed); when the implementation is repaired the probe is silent."""
     if not probes:
         return
-    cases = [{'op': 'compile', 'sources': p['src'] if isinstance(p['src'], list) else [p['src']], 'config': p.get('config', {}), 'text': True}
-             for p in probes]
+    cases = [{'op': 'compile', 'sources': p['src'] if isinstance(p['src'], list) else [p['src']], 'config': p.get('config', {}), 'text': True,
+              'backend': p.get('backend', 'rasn')} for p in probes]
     for p, r in zip(probes, run_harness(cases)):
         ck.note_case('probe:' + json.dumps(p['src']))
         ck.count('probe')
